@@ -199,4 +199,4 @@ def body(ctx):
 
 
 def main(tier, replay=None):
-    return C.run_check(PID, tier, body, trusted=["numpy.array_split / itertools.product / re / json (external, compared by result)"])
+    return C.run_check(PID, tier, body, replay=replay, trusted=["numpy.array_split / itertools.product / re / json (external, compared by result)"])
